@@ -176,6 +176,70 @@ func genResolver() {
 	}
 	m.strs("latestConfigurationUses", latestUses,
 		"top-level statements of handler.go functions that mention the field latestConfiguration")
+
+	// --- state/store.go, changed_predicate.go, change_processor.go, graph/graph.go: how EndpointSlice events are judged
+	st := src("internal/mode/static/state/store.go")
+	m.strs("trackingUpsertBody", resolverStmts(st, st.fn("changeTrackingUpdater", "upsert").Body),
+		"statements of changeTrackingUpdater.upsert")
+	m.strs("trackingDeleteBody", resolverStmts(st, st.fn("changeTrackingUpdater", "delete").Body),
+		"statements of changeTrackingUpdater.delete")
+	m.strs("setChangeTypeBody", resolverStmts(st, st.fn("changeTrackingUpdater", "setChangeType").Body),
+		"statements of changeTrackingUpdater.setChangeType")
+	m.strs("mapAdapterGetBody", resolverStmts(st, st.fn("objectStoreMapAdapter", "get").Body),
+		"statements of objectStoreMapAdapter.get")
+	m.strs("mapAdapterUpsertBody", resolverStmts(st, st.fn("objectStoreMapAdapter", "upsert").Body),
+		"statements of objectStoreMapAdapter.upsert")
+	m.strs("mapAdapterDeleteBody", resolverStmts(st, st.fn("objectStoreMapAdapter", "delete").Body),
+		"statements of objectStoreMapAdapter.delete")
+	pr := src("internal/mode/static/state/changed_predicate.go")
+	m.strs("funcPredicateUpsertBody", resolverStmts(pr, pr.fn("funcPredicate", "upsert").Body),
+		"statements of funcPredicate.upsert")
+	m.strs("funcPredicateDeleteBody", resolverStmts(pr, pr.fn("funcPredicate", "delete").Body),
+		"statements of funcPredicate.delete")
+	cp := src("internal/mode/static/state/change_processor.go")
+	var sliceCfg []string
+	var isRefClosure string
+	walk(cp.fn("", "NewChangeProcessorImpl").Body, func(n ast.Node) bool {
+		switch x := n.(type) {
+		case *ast.CompositeLit:
+			isSlice := false
+			for _, el := range x.Elts {
+				if kv, ok := el.(*ast.KeyValueExpr); ok && cp.text(kv.Key) == "gvk" &&
+					cp.text(kv.Value) == "cfg.MustExtractGVK(&discoveryV1.EndpointSlice{})" {
+					isSlice = true
+				}
+			}
+			if isSlice {
+				for _, el := range x.Elts {
+					sliceCfg = append(sliceCfg, cp.text(el))
+				}
+			}
+		case *ast.AssignStmt:
+			if len(x.Lhs) == 1 && cp.text(x.Lhs[0]) == "isReferenced" {
+				isRefClosure = cp.text(x)
+			}
+		}
+		return true
+	})
+	if len(sliceCfg) == 0 {
+		fail("ResolverFacts: the EndpointSlice entry of NewChangeProcessorImpl was not found")
+	}
+	m.strs("sliceTrackingCfg", sliceCfg, "fields of the EndpointSlice changeTrackingUpdaterObjectTypeCfg in NewChangeProcessorImpl")
+	m.str("isReferencedClosure", isRefClosure, "the isReferenced closure of NewChangeProcessorImpl")
+	m.strs("processBody", resolverStmts(cp, cp.fn("ChangeProcessorImpl", "Process").Body), "statements of ChangeProcessorImpl.Process")
+	gg := src("internal/mode/static/state/graph/graph.go")
+	var sliceCase []string
+	walk(gg.fn("Graph", "IsReferenced").Body, func(n ast.Node) bool {
+		cc, ok := n.(*ast.CaseClause)
+		if !ok || len(cc.List) != 1 || gg.text(cc.List[0]) != "*discoveryV1.EndpointSlice" {
+			return true
+		}
+		for _, b := range cc.Body {
+			sliceCase = append(sliceCase, gg.text(b))
+		}
+		return false
+	})
+	m.strs("isReferencedSliceCase", sliceCase, "statements of `case *discoveryV1.EndpointSlice` in Graph.IsReferenced")
 }
 
 // resolverStmts renders the top-level statements of a block without comments.
